@@ -14,7 +14,7 @@ CONSTANTS
   NZero <- TZero
   MaxBal <- TMaxBal
   UMax <- TUMax
-INVARIANTS CanClose LedgerShape Conservation HeldSigsValid TagSeparation IssuedMatchesLedger TokenOnlyAfterRevocation ClosedOnUnrevoked RevealedAgree
+INVARIANTS CanClose LedgerShape Conservation HeldSigsValid TagSeparation IssuedMatchesLedger TokenOnlyAfterRevocation ClosedOnUnrevoked MerchantExposureBounded RevealedAgree
 PROPERTIES RefusedIsInert ReleaseOnlyOnAccept RefusedStartInert TokenIffOpens RestoreStutters ReplayRefused FaultRefused HonestAccepted
 POSTCONDITION Accepted
 CHECK_DEADLOCK FALSE
